@@ -283,8 +283,8 @@ Definition cv (c : list (option Z)) (ma mi pa : Z) (bid : list N) (i0 i1 : Z) : 
   | _ => mkv None None None None None None None None None ma mi pa bid s_final [] [] [] 0%Z i0 i1
   end.
 
-Lemma cinfo_shape n : exists a b c d e g h i j, cinfo_of_ord n = [a; b; c; d; e; g; h; i; j].
-Proof. unfold cinfo_of_ord, cal_some, cal_fields. cbn [map]. do 9 eexists. reflexivity. Qed.
+Lemma cinfo_length n : length (cinfo_of_ord n) = 9%nat.
+Proof. reflexivity. Qed.
 
 Lemma sv_vinfo_cv today ma mi pa : sv_vinfo today ma mi pa = cv (cinfo_of_ord today) ma mi pa [49;48;48;48] 0%Z 1%Z.
 Proof. reflexivity. Qed.
@@ -299,9 +299,6 @@ Proof.
   - exists (cinfo_of_ord today). split; [reflexivity|]. reflexivity.
   - exists (cinfo_of_ord date). split; [reflexivity|]. reflexivity.
 Qed.
-
-Lemma zeqb_succ' : forall x : Z, (x =? x + 1)%Z = false.
-Proof. intros x. apply Z.eqb_neq. lia. Qed.
 
 (* _incr_numeric on MAJOR.MINOR.PATCH *)
 Lemma incr_numeric_semver : forall c0 c fl ma mi pa, only_part_flags fl -> length c0 = 9%nat -> length c = 9%nat ->
@@ -324,7 +321,7 @@ Proof.
     rewrite bump_1000; upd;
     rewrite reset_rollover_fields_eq, ppf_semver; cbn [after_first_changed]; unfold changed;
     rewrite !gf_major, !gf_minor, !gf_patch; cbn [eqb_fval];
-    rewrite ?zeqb_succ', ?Z.eqb_refl; cbn [negb]; reflexivity.
+    rewrite ?zeqb_succ, ?Z.eqb_refl; cbn [negb]; reflexivity.
 Qed.
 
 Lemma cv_fields c ma mi pa bid i0 i1 : length c = 9%nat ->
@@ -371,8 +368,7 @@ Proof.
   destruct (cur_shape today date (Z.of_N ma) (Z.of_N mi) (Z.of_N pa)) as (c & L & Hc).
   cbv zeta in Hc. rewrite Hc. clear Hc.
   rewrite sv_vinfo_cv.
-  destruct (cinfo_shape today) as (a0 & b0 & c0 & d0 & e0 & g0 & h0 & i0 & j0 & E0).
-  assert (L0 : length (cinfo_of_ord today) = 9%nat) by (rewrite E0; reflexivity).
+  pose proof (cinfo_length today) as L0.
   destruct (incr_numeric_semver (cinfo_of_ord today) c fl (Z.of_N ma) (Z.of_N mi) (Z.of_N pa) Hfl L0 L)
     as (bid & i0' & i1' & HN).
   rewrite HN. clear HN.
